@@ -347,7 +347,7 @@ pub fn main(args: &[String]) {
             let mut m = Module::default(); let t0 = m.types.add(&[], &[]);
             let mods = ["env", "wasi", "x"]; let fields = ["log", "tick", "a"];
             let mut imps: Vec<(ImportId, FunctionId, String, String, bool)> = vec![]; let mut exps: Vec<(ExportId, String, bool)> = vec![]; let mut log = vec![];
-            for step in 0..(4 + rr.usize(10)) { match rr.below(6) {
+            for step in 0..(4 + rr.usize(10)) { match rr.below(7) {
                 0 | 1 => { let (md, fl) = (*rr.pick(&mods), *rr.pick(&fields)); let (f, i) = m.add_import_func(md, fl, t0); log.push(format!("import {}.{}", md, fl)); imps.push((i, f, md.to_string(), fl.to_string(), true)); }
                 2 => { if let Some(x) = imps.first() { let nm = *rr.pick(&fields); let f = x.1; let e = m.exports.add(nm, f); log.push(format!("export {}", nm)); exps.push((e, nm.to_string(), true)); } }
                 3 => { let (md, fl) = (*rr.pick(&mods), *rr.pick(&fields)); let want = imps.iter().position(|x| x.4 && x.2 == md && x.3 == fl);
@@ -358,6 +358,12 @@ pub fn main(args: &[String]) {
                 4 => { let nm = *rr.pick(&fields); let want = exps.iter().position(|x| x.2 && x.1 == nm); let r = m.exports.remove(nm); log.push(format!("exports.remove {}", nm));
                        match want { Some(k) => { if r.is_err() { return Some(format!("history {} step {}: exports.remove({}) failed although such an export is live [{}]", h, step, nm, log.join("; "))); } exps[k].2 = false; }
                                     None => if r.is_ok() { return Some(format!("history {} step {}: exports.remove({}) succeeded although no such export is live [{}]", h, step, nm, log.join("; "))); } } }
+                5 => { // an edit that removes ONE import by identity: replace_imported_func on the function of a live import
+                       let livek: Vec<usize> = imps.iter().enumerate().filter(|(_, x)| x.4).map(|(k, _)| k).collect();
+                       if !livek.is_empty() { let k = *rr.pick(&livek); let f = imps[k].1; log.push(format!("replace_imported_func of import id {}", imps[k].0.index()));
+                           // a function can be the target of only one import entry here (each add_import_func creates its own function)
+                           if m.replace_imported_func(f, |_| {}).is_err() { return Some(format!("history {} step {}: replace_imported_func refused a live imported function [{}]", h, step, log.join("; "))); }
+                           imps[k].4 = false; } }
                 _ => {} }
                 // the by-name lookups resolve to the FIRST live entry with that name: exports.get_func, imports.get_func
                 { let nm = *rr.pick(&fields); let want = exps.iter().find(|x| x.2 && x.1 == nm).map(|_| imps[0].1); let got = m.exports.get_func(nm).ok();
